@@ -35,6 +35,16 @@ class OddAttr(Exception):
     pass
 
 
+class _Held:
+    def __init__(self, tok):
+        self.tok = tok
+        self.closed = 0
+
+    def close(self):
+        self.closed += 1
+        raise RuntimeError("release unlocked lock (%s)" % (self.tok,))
+
+
 @api.expose
 class Victim:
     """token echo object; boom(kind) raises arbitrary Exception subclasses"""
@@ -42,6 +52,7 @@ class Victim:
     def __init__(self, sched):
         self._s = sched
         self._log = []       # (stamp, conn, method, token)
+        self._held = []
 
     def _rec(self, m, tok):
         from Pyro5.callcontext import current_context
@@ -84,6 +95,15 @@ class Victim:
         self._rec("gen", n)
         return (i for i in range(n))
 
+    def hold(self, tok):
+        """the application tracks a resource on the calling connection; closing it may fail (a lock released twice, say)"""
+        from Pyro5.callcontext import current_context
+        self._rec("hold", tok)
+        r = _Held(tok)
+        self._held.append(r)            # (the daemon tracks weakly)
+        current_context.track_resource(r)
+        return [tok, len(self._held)]
+
     def it(self, kind):
         """item streams that are not generators (no close(), no throw())"""
         self._rec("it", kind)
@@ -97,7 +117,7 @@ class Victim:
 # ---------------------------------------------------------------------------------------------
 # message specs -> bytes (the harness's own encoder; payloads come from the real serializers)
 _SER_CODES = None
-BASES = ["connect", "invoke", "boom", "ping", "ow", "batch", "garbage", "unknown_member", "private_member", "gen", "blob", "daemon_ping", "it"]
+BASES = ["connect", "invoke", "boom", "ping", "ow", "batch", "garbage", "unknown_member", "private_member", "gen", "blob", "daemon_ping", "it", "hold", "classdict"]
 OBJS = ["tok", "tok", "tok", "nope", "Pyro.Daemon"]
 BOUND8 = [0, 1, 0x7f, 0x80, 0xff]
 BOUND16 = [0, 1, 0x7fff, 0x8000, 0xffff]
@@ -166,6 +186,26 @@ def handshake_payload(hand, obj):
     raise ValueError(hand)
 
 
+NASTY_LOCATIONS = ["[" + "a" * 26, "[" + ":" * 40, "[" + "f:" * 20, "[::1" + "]" * 30, "h:" + "9" * 400, "h" * 3000 + ":1", "./u:" + "/" * 2000,
+                   "[" + "0" * 26 + "%eth0", "", "@@@:::", "\u0000:1", "h:-1", "h:99999999999999999999"]
+
+
+def class_dict(k):
+    """wire forms ({'__class__': ...}) of classes the deserialiser knows, with hostile strings inside"""
+    loc = NASTY_LOCATIONS[k % len(NASTY_LOCATIONS)]
+    uri = "PYRO:obj@" + loc
+    shape = (k // len(NASTY_LOCATIONS)) % 5
+    if shape == 0:
+        return {"__class__": "Pyro5.client.Proxy", "state": [uri, [], [], [], None, "marshal"]}
+    if shape == 1:
+        return {"__class__": "Pyro5.core.URI", "state": ["PYRO", "obj", None, loc, 1]}
+    if shape == 2:
+        return {"__class__": "Pyro5.client.Proxy", "state": ["PYRONAME:" + "n" * (k % 3000) + "@" + loc, ["x"], ["y"], [], None, None]}
+    if shape == 3:
+        return {"__class__": "builtins.ValueError", "__exception__": True, "args": [uri], "attributes": {"_pyroTraceback": [uri] * 3}}
+    return {"__class__": "Pyro5.client.Proxy", "state": [uri]}
+
+
 def build_msg(spec):
     base = spec["base"]
     if base == "garbage":
@@ -195,6 +235,12 @@ def build_msg(spec):
         payload = ser.dumpsCall(obj, "gen", [3], {})
     elif base == "it":
         payload = ser.dumpsCall(obj, "it", [spec["arg"]], {})
+    elif base == "hold":
+        payload = ser.dumpsCall(obj, "hold", ["HH%d" % spec["arg"]], {})
+    elif base == "classdict":
+        # the wire form of Pyro's own classes as an argument, with hostile contents: the daemon turns them back into objects
+        # (dict_to_class) before it even looks at the method
+        payload = ser.dumpsCall(obj, "echo", [class_dict(spec["arg"])], {})
     elif base == "batch":
         calls = [("echo", ["HB%d" % spec["arg"]], {}), ("boom", [spec["arg"] % 9], {}), ("echo", ["never"], {})]
         payload = ser.dumpsCall(obj, "<batch>", calls, None)
@@ -330,6 +376,7 @@ class HostileWorld(World):
     CHUNK = 100
     SHRINK_LISTS = ["peers", "peers.0.msgs", "peers.1.msgs", "peers.2.msgs"]
     ALLOC_BOMB_VIOLATION = True
+    SLOW_STEP_THREADS = ("daemon-loop", "Worker", "housekeeper")
 
     def gen(self, rng, tier):
         big = tier == "thorough"
